@@ -122,6 +122,7 @@ func RunOptim(c *core.Ctx) {
 		}
 		return v, nil
 	}
+	invalidOption, optionText := false, ""
 	ncons := 0
 	pred := func(x ad.Vector) bool {
 		ncons++
@@ -182,7 +183,12 @@ func RunOptim(c *core.Ctx) {
 				args = append(args, newton.Constraints{Value: pred})
 			}
 			if t.Bool(1, 2) {
-				args = append(args, newton.HessianModification{Value: []string{"LDL", "eigenvalue", "none"}[t.Choose(3)]})
+				// the three documented values and values that are not
+				hm := []string{"LDL", "Eigenvalue", "None", "LDL", "Eigenvalue", "ldl", "eigenvalue", "Eigenvalues", "Cholesky", ""}[t.Choose(10)]
+				invalidOption = hm != "LDL" && hm != "Eigenvalue" && hm != "None"
+				optionText = fmt.Sprintf("HessianModification{%q}", hm)
+				c.Logf("newton %s", optionText)
+				args = append(args, newton.HessianModification{Value: hm})
 			}
 			_, err = newton.RunMin(f, x0, args...)
 		case "gradientDescent":
@@ -269,6 +275,14 @@ func RunOptim(c *core.Ctx) {
 		c.Logf("error: %v", err)
 	}
 	c.Count("outcome:" + outcome)
+	if invalidOption {
+		c.Count("misuse:invalid-option-value")
+		// the option is consulted when the first direction is computed, i.e.
+		// after the first successful evaluation
+		if outcome == "returned" && evals >= 2 {
+			c.Fail("loud-failure", alg+"|invalid-option-value|silently-accepted", "%s with the invalid option value %s returned without error after %d evaluations", alg, optionText, evals)
+		}
+	}
 	if reg.kind != 0 {
 		c.Count("fault:objective-undefined-region")
 	}
